@@ -12,6 +12,10 @@ CHECKS = {
    text="Bounded symbolic execution of the MIR of every function in modular_arithmetic.rs: for all a,b in [0,p) of the three real primes each result equals the documented Circom semantics, is canonical, undefined cases are Err, and no panic or unbounded big-integer work is reachable (also for out-of-field operands < 2^256). Solver verdict over all operands, not sampling.",
    note=TB + "mod_inverse/modpow/bitwise ops on Z are shared uninterpreted symbols in code and oracle. Quick tier: complement_256 for operands < 2^16 plus boundary classes; thorough: every bit length, plus small primes.",
    ref="DESIGN.md §3 C16"),
+ 'C15': dict(
+   text="Symbolic execution of the MIR of DominatorTree::new / compute_dominators / compute_immediate_dominators / compute_dominance_frontier with the generic node type bound to a harness node whose predecessor set is a symbolic subset of the nodes: for every rooted digraph within the node bound (quick <=4, thorough <=5 nodes; self loops and irreducible graphs included) the dominator sets, immediate dominators, dominator-tree children and dominance frontiers equal their path definitions and the three internal assertions are unreachable.",
+   note=TB + "HashSet<usize> is modelled as a bit set whose iteration order is ascending (order sensitivity is C17's subject). Graphs with more nodes are outside the claim.",
+   ref="DESIGN.md §3 C15"),
  'C07': dict(
    text="Two engines. Kani (CBMC) over the compiled Degree/DegreeRange code: all 20 infix and 3 prefix transfer functions and their end-point lifting to ranges are sound w.r.t. the least sound degree bound and monotone, Ord is the rank order, predicates/inf/contains are right - the whole finite space in one query each. mirsym over the MIR of the private opcode dispatch (ExpressionInfixOpcode/PrefixOpcode::propagate_degrees) with symbolic opcode and ranges: unknown operand => no claim, otherwise claimed end >= least sound bound for every operand degree in the ranges.",
    note=TB + "Kani/CBMC trusted for the kernel harnesses. Reference = least sound bound (+,-: max; *: sum capped; / by constant keeps the degree; unary -: identity; anything else constant iff all operands constant). Outside: that an IR expression denotes the polynomial assumed; fixpoint convergence; IR node rules other than the opcode dispatch unless listed in the evidence.",
